@@ -3,8 +3,9 @@
    OCaml types; nat, positive, N, Z stay Coq datatypes.  No Extract Constant of our own.
    Run with the current directory set to the output directory (driver/extracted). *)
 From Coq Require Import Extraction ExtrOcamlBasic.
-From Crusta Require Import Spec.AF Sat.Cnf Sat.Prog Model.Store Model.Encoders Model.Graph Model.Solvers Model.Equiv.
-From Crusta Require Import Spec.AF Sat.Cnf Sat.Prog Model.Store Model.Encoders Model.Graph Model.Solvers Model.Readers Model.Writers.
+From Crusta Require Import Spec.AF Sat.Cnf Sat.Prog Model.Store Model.Encoders Model.Graph Model.Solvers.
+From Crusta Require Import Model.Equiv.
+From Crusta Require Import Model.Readers Model.Writers.
 Extraction Language OCaml.
 Separate Extraction
   (* spec oracle *)
@@ -24,9 +25,11 @@ Separate Extraction
   Solvers.run_query
   (* equivalence reduction (C19) *)
   Equiv.equivalency_new Equiv.init_to_reduced_arg Equiv.reduced_arg_to_init_args Equiv.propagate
-  Equiv.n_attacks_to Equiv.compute_classes.
+  Equiv.n_attacks_to Equiv.compute_classes
   (* readers and writers (C13, C14) *)
   Readers.read_iccma Readers.read_apx Readers.iccma_read_arg Readers.apx_read_arg Readers.observe
   Readers.utf8_decode Readers.lines
   Writers.write_apx Writers.write_w Writers.write_bracket Writers.write_no Writers.write_status
-  Writers.utf8_encode Writers.dec Writers.dec_nat Writers.parse_w Writers.parse_bracket.
+  Writers.utf8_encode Writers.dec Writers.dec_nat Writers.parse_w Writers.parse_bracket
+  (* (new roots go above this line; the terminating period stays alone on the next line) *)
+.
